@@ -11,6 +11,7 @@ import (
 	"syscall"
 	"testing"
 	"time"
+	"unicode/utf8"
 	"unsafe"
 
 	"github.com/mk6i/mkdb/engine"
@@ -178,6 +179,9 @@ func c20Expect(typed string) string {
 func runC20(env *lib.Env, rep *lib.Report) {
 	known := env.OpenKnown()
 	chunks := []int{1, 2, 255, 0}
+	if env.Thorough() {
+		chunks = []int{1, 2, 3, 5, 7, 16, 255, 256, 257, 0}
+	}
 	fails := map[string]int{}
 	var n int64
 	var wantOverride []string // set by families that compute the expected statements from the whole typed text
@@ -337,15 +341,28 @@ func runC20(env *lib.Env, rep *lib.Report) {
 	// (3b) Enter pressed at every character position of a line of several statements (also inside words and right
 	// after an opening quote: whatever the user does there, every character typed reaches the engine, and a line
 	// break counts as one blank)
-	for _, text := range []string{"USE d;SELECT 'a;b' FROM t;", "a;'x;y';b ;", "INSERT INTO t VALUES ('q');S;\"w;\" ;", "x;yz;"} {
+	enterTexts := []string{"USE d;SELECT 'a;b' FROM t;", "a;'x;y';b ;", "INSERT INTO t VALUES ('q');S;\"w;\" ;", "x;yz;"}
+	if env.Thorough() {
+		// every pair of fragments typed on one line
+		for _, fa := range c20Fragments {
+			for _, fb := range c20Fragments {
+				enterTexts = append(enterTexts, c20Render(fa, 0)+c20Render(fb, 0))
+			}
+		}
+		rep.Bounds["enter-at-every-position (thorough)"] = fmt.Sprintf("%d lines: every pair of fragments on one line, Enter at every byte position that is a character boundary (and twice)", len(enterTexts))
+	}
+	for _, text := range enterTexts {
 		for p := 1; p < len(text); p++ {
+			if !utf8.RuneStart(text[p]) || text[p-1] == '\\' {
+				continue // (Enter directly behind a backslash: what backslash-newline means inside a literal is not fixed by the property)
+			}
 			typed := text[:p] + "\r" + text[p:]
 			wantOverride = c20RefSplit(strings.ReplaceAll(typed, "\r", " "))
 			for _, ch := range []int{1, 0} {
 				check("enter-at-every-position", []string{typed}, nil, "", ch)
 			}
 			// and twice: at p and once more two characters later
-			if p+2 < len(text) {
+			if p+2 < len(text) && utf8.RuneStart(text[p+2]) && text[p+1] != '\\' {
 				typed2 := text[:p] + "\r" + text[p:p+2] + "\r" + text[p+2:]
 				wantOverride = c20RefSplit(strings.ReplaceAll(typed2, "\r", " "))
 				check("enter-at-every-position", []string{typed2}, nil, "", 0)
@@ -426,9 +443,15 @@ func c20RefSplit(text string) []string {
 	var out []string
 	var cur strings.Builder
 	quote := rune(0)
+	escaped := false
 	for _, ch := range text {
 		cur.WriteRune(ch)
 		switch {
+		case escaped:
+			// (inside a literal a backslash takes the next character with it, as in the SQL scanner)
+			escaped = false
+		case quote != 0 && ch == '\\':
+			escaped = true
 		case quote != 0:
 			if ch == quote {
 				quote = 0
